@@ -418,7 +418,7 @@ example : pfamMappingOrder.wf = true ∧
     (Q.get? pfamMappingOrder.quals "db_xref") = some ["PF00032.20", "GO:0009055", "GO:0016020", "GO:0016491"] := by
   decide +kernel
 
-/-! ### a sideloaded area whose tool name itself starts with "externally annotated" (fixes/D67-C10) -/
+/-! ### a sideloaded area whose tool name itself starts with "externally annotated" (fixes/D68-C10) -/
 
 def sideNamed : Sub :=
   ⟨⟨.simple ⟨150, 210, .none⟩, "subregion", [], [], true, none⟩, "externally annotated regions v2", "x", some [("zz_extra", ["1"])]⟩
